@@ -62,6 +62,7 @@ Row ==
       body |-> <<CName(t) \o " loc = " \o e \o ";">>,
       pr |-> <<<<" %s", "TN(" \o e \o ")">>, <<" %d", "(int)sizeof " \o e>>, show(e), show("loc")>> \o (IF allconst THEN <<show("st_@")>> ELSE <<>>),
       exp |-> <<t, ToString(SizeOf(t)), ValStr(sel.v2), ValStr(sel.v2)>> \o (IF allconst THEN <<ValStr(sel.v2)>> ELSE <<>>),
+      desc |-> e \o (IF a.rt THEN "  with " \o CName(a.ty) \o " xa = " \o a.lit ELSE "") \o (IF b.rt THEN "  with " \o CName(b.ty) \o " xb = " \o b.lit ELSE ""),
       sig |-> (IF cnd[3] THEN "const_cond" ELSE "rt_cond") \o ":" \o (IF sel.rt THEN "rt" ELSE "const") \o "_" \o sel.ty \o "_selected:other_"
               \o (IF cnd[2] THEN b.ty ELSE a.ty), d |-> 1]
 Init == lvl = 0 /\ cnd = <<"", FALSE, FALSE>> /\ a = Arm(<<"i", 0, "">>, FALSE) /\ b = Arm(<<"i", 0, "">>, FALSE)
